@@ -192,6 +192,17 @@ def gen_messages(tier, seed):
     for sc in SearchScope:
         for dp in DereferencingPolicy:
             out.append(SearchRequest(message_id=1, controls=[], base_object="", scope=sc, deref_aliases=dp, size_limit=0, time_limit=0, types_only=False, filter=FilterPresent("a"), attributes=[]))
+    # long lists (a decoder or encoder with a fixed-size table, an 8-bit counter or a cut-off keeps short lists intact)
+    N = 300
+    leaf = FilterPresent("a")
+    for flt in (FilterAnd([leaf] * N), FilterOr([FilterEquality("a", b"%d" % q) for q in range(N)]), FilterSubstrings("a", None, [b"x"] * N, None)):
+        out.append(SearchRequest(message_id=1, controls=[], base_object="", scope=SearchScope.BASE, deref_aliases=DereferencingPolicy.NEVER, size_limit=0, time_limit=0,
+                                 types_only=False, filter=flt, attributes=["a%d" % q for q in range(N)]))
+    out.append(SearchResultEntry(message_id=1, controls=[], object_name="", attributes=[PartialAttribute("a%d" % q, [b"v"]) for q in range(N)]))
+    out.append(SearchResultEntry(message_id=1, controls=[], object_name="", attributes=[PartialAttribute("a", [b"%d" % q for q in range(N)])]))
+    out.append(SearchResultReference(message_id=1, controls=[], uris=["ldap://h%d" % q for q in range(N)]))
+    out.append(SearchResultDone(message_id=1, controls=[LDAPControl("1.2.%d" % q, False, None) for q in range(N)],
+                                result=LDAPResult(result_code=LDAPResultCode.REFERRAL, matched_dn="", diagnostics_message="", referrals=["ldap://h%d" % q for q in range(N)])))
     for _ in range(300 if tier == "quick" else 4000):
         k = rnd.randrange(8)
         ctr = rnd.choice(ALL_CONTROLS)
@@ -351,7 +362,7 @@ def _wrong(v):
     elif isinstance(v, int):
         yield "x"; yield b"x"
     elif isinstance(v, list):
-        for k in range(len(v)):
+        for k in (range(len(v)) if len(v) <= 8 else (0, len(v) // 2, len(v) - 1)):
             for w in _wrong(v[k]):
                 yield v[:k] + [w] + v[k + 1:]
         yield v + [object()]
